@@ -105,20 +105,40 @@ structure Rel (idx : Key → Nat) (sh : Nat → List Hold) (holds : List Hold) :
 theorem Rel.mem {idx sh holds} (r : Rel idx sh holds) (h : Hold) : h ∈ holds ↔ h ∈ sh (idx h.key) := by
   rw [← List.count_pos_iff, ← List.count_pos_iff, r.same h]
 
-theorem rel_free {idx sh holds} (r : Rel idx sh holds) (k : Key) (w : Bool) : shFree idx sh k w = free holds k w := by
-  rw [Bool.eq_iff_iff, shFree, free_iff, free_iff]
+theorem rel_free0 {idx sh holds} (r : Rel idx sh holds) (k : Key) (w : Bool) : free (sh (idx k)) k w = free holds k w := by
+  rw [Bool.eq_iff_iff, free_iff, free_iff]
   constructor
   · intro H h hh hk
     exact H h (by have := (r.mem h).1 hh; rwa [hk] at this) hk
   · intro H h hh hk
     exact H h ((r.mem h).2 (by rwa [hk])) hk
 
-theorem rel_all_free {idx sh holds} (r : Rel idx sh holds) (keys : List Key) (w : Bool) :
-    (shardOrder idx keys).all (fun k => shFree idx sh k w) = keys.all (fun k => free holds k w) := by
+/-- as many readers of `k` in its shard as in the single table -/
+theorem rel_readers {idx sh holds} (r : Rel idx sh holds) (k : Key) : readers (sh (idx k)) k = readers holds k := by
+  simp only [readers, List.countP_eq_length_filter]
+  apply List.Perm.length_eq
+  rw [List.perm_iff_count]
+  intro h
+  by_cases hp : (decide (h.key = k) && !h.write) = true
+  · have hk : h.key = k := by simp at hp; exact hp.1
+    rw [List.count_filter (p := fun h => decide (h.key = k) && !h.write) (a := h) hp,
+      List.count_filter (p := fun h => decide (h.key = k) && !h.write) (a := h) hp, r.same h, hk]
+  · have h1 : h ∉ (sh (idx k)).filter (fun h => decide (h.key = k) && !h.write) := by
+      intro hm; exact hp (List.mem_filter.1 hm).2
+    have h2 : h ∉ holds.filter (fun h => decide (h.key = k) && !h.write) := by
+      intro hm; exact hp (List.mem_filter.1 hm).2
+    rw [List.count_eq_zero.2 h1, List.count_eq_zero.2 h2]
+
+theorem rel_free {idx sh holds} (cap : Nat) (r : Rel idx sh holds) (k : Key) (w : Bool) :
+    shFree cap idx sh k w = freeC cap holds k w := by
+  simp only [shFree, freeC, rel_free0 r, rel_readers r]
+
+theorem rel_all_free {idx sh holds} (cap : Nat) (r : Rel idx sh holds) (keys : List Key) (w : Bool) :
+    (shardOrder idx keys).all (fun k => shFree cap idx sh k w) = keys.all (fun k => freeC cap holds k w) := by
   rw [Bool.eq_iff_iff, List.all_eq_true, List.all_eq_true]
   constructor
-  · intro H k hk; rw [← rel_free r]; exact H k ((mem_shardOrder idx k keys).2 hk)
-  · intro H k hk; rw [rel_free r]; exact H k ((mem_shardOrder idx k keys).1 hk)
+  · intro H k hk; rw [← rel_free cap r]; exact H k ((mem_shardOrder idx k keys).2 hk)
+  · intro H k hk; rw [rel_free cap r]; exact H k ((mem_shardOrder idx k keys).1 hk)
 
 theorem count_filter_map (idx : Key → Nat) (t : Nat) (w : Bool) (h : Hold) (l : List Key) :
     ((l.filter (fun k => idx k = idx h.key)).map (fun k => (⟨t, k, w⟩ : Hold))).count h =
@@ -186,20 +206,20 @@ theorem rel_counts {idx sh holds} (r : Rel idx sh holds) (t : Nat) (keys : List 
   · intro H k hk; have := H k hk; rw [r.same ⟨t, k, w⟩] at this; exact this
 
 /-- one request: same answer, and the two tables stay related -/
-theorem lock_step_sim (idx : Key → Nat) (s : ShLockSt) (l : LockSt) (r : Rel idx s.shards l.holds)
+theorem lock_step_sim (cap : Nat) (idx : Key → Nat) (s : ShLockSt) (l : LockSt) (r : Rel idx s.shards l.holds)
     (hw : s.waiter = l.waiter) (req : LReq) :
-    (Rel idx (shLockStep idx s req).1.shards (lockStep l req).1.holds ∧
-      (shLockStep idx s req).1.waiter = (lockStep l req).1.waiter) ∧
-    (shLockStep idx s req).2 = (lockStep l req).2 := by
+    (Rel idx (shLockStep cap idx s req).1.shards (lockStep cap l req).1.holds ∧
+      (shLockStep cap idx s req).1.waiter = (lockStep cap l req).1.waiter) ∧
+    (shLockStep cap idx s req).2 = (lockStep cap l req).2 := by
   cases req with
   | acq t keys w =>
-    simp only [shLockStep, lockStep, ShLockSt.acquire, LockSt.acquire, hw, rel_held r, rel_all_free r]
+    simp only [shLockStep, lockStep, ShLockSt.acquire, LockSt.acquire, hw, rel_held r, rel_all_free cap r]
     generalize (l.waiter.isSome || keys.isEmpty || (w && !distinct keys) ||
       l.holds.any fun h => decide (h.thread = t) && keys.contains h.key) = C
     cases C with
     | true => exact ⟨⟨r, hw⟩, rfl⟩
     | false =>
-      generalize (keys.all fun k => free l.holds k w) = D
+      generalize (keys.all fun k => freeC cap l.holds k w) = D
       cases D with
       | true => exact ⟨⟨rel_grant r t keys w, rfl⟩, rfl⟩
       | false => exact ⟨⟨r, rfl⟩, rfl⟩
@@ -214,8 +234,8 @@ theorem lock_step_sim (idx : Key → Nat) (s : ShLockSt) (l : LockSt) (r : Rel i
       cases hwt : l.waiter with
       | none => exact ⟨⟨rd, rfl⟩, rfl⟩
       | some wt =>
-        simp only [Bool.false_eq_true, if_false, rel_all_free rd]
-        generalize (wt.keys.all fun k => free (dropHolds l.holds t keys w) k wt.write) = D
+        simp only [Bool.false_eq_true, if_false, rel_all_free cap rd]
+        generalize (wt.keys.all fun k => freeC cap (dropHolds l.holds t keys w) k wt.write) = D
         cases D with
         | true => exact ⟨⟨rel_grant rd _ _ _, rfl⟩, rfl⟩
         | false => exact ⟨⟨rd, rfl⟩, rfl⟩
